@@ -68,8 +68,8 @@ DESIGN = {
     "C09": [("flow.cfg", "all"), ("sched.cfg", 250), ("history.cfg", 400)],
     "C10": [("flow.cfg", "all"), ("reports.cfg", "all")],
     "C11": [("sched.cfg", 400), ("history.cfg", 200), ("sched_inv.cfg", "inv"), ("live_sched.cfg", "live")],
-    "C12": [("sched.cfg", 400), ("sched_inv.cfg", "inv")],
-    "C13": [("sched.cfg", 250), ("flow.cfg", "all"), ("live_sched.cfg", "live")],
+    "C12": [("sched.cfg", 400), ("stale.cfg", 300), ("sched_inv.cfg", "inv")],
+    "C13": [("sched.cfg", 250), ("flow.cfg", "all"), ("progress.cfg", "all"), ("live_sched.cfg", "live")],
     "C14": [("flow.cfg", "all"), ("sfail.cfg", "all"), ("clock.cfg", 500), ("live_retry.cfg", "live"), ("live_sched.cfg", "live")],
     "C18": [("flow.cfg", "all"), ("sched.cfg", 250), ("history.cfg", 400), ("clock.cfg", 300)],
 }
